@@ -38,11 +38,14 @@ class VClock(object):
     def time(self):
         return self.now
 
+    # the three clocks tick together but have different origins, as the real ones do (time() counts from 1970,
+    # monotonic()/perf_counter() from some point near boot): code that subtracts one from another goes wrong here
+    # the way it would in production
     def monotonic(self):
-        return self.now
+        return self.now - EPOCH + 4321.5
 
     def perf_counter(self):
-        return self.now
+        return self.now - EPOCH + 77.25
 
     def sleep(self, d):
         # a blocking library call made by the driver (UdpClient.waitForDisconnect sleeps between its updates): the world
@@ -334,6 +337,7 @@ class ClientEnd(object):
         self.last_origin = None
         self.updates_per_step = 1    # application frames per server tick
         self.on_connected = []       # callables(client) run inside the connect callback
+        self.on_connecting = []      # callables(client) run right after connect() returned (status CONNECTING)
         self.last_datagram = None
 
     @property
@@ -347,6 +351,8 @@ class ClientEnd(object):
                 for fn in self.on_connected:          # re-entrant use of the API from inside the connect callback
                     fn(self)
         self.udp.connect(SERVER_ADDR, cb if (with_callback or self.on_connected) else None)
+        for fn in self.on_connecting:                 # the application uses the client right after connect() returned
+            fn(self)
 
     def wait_for_disconnect(self):
         """the blocking UdpClient.waitForDisconnect(): it calls update() and time.sleep(send_interval) in a loop; every sleep
